@@ -20,7 +20,7 @@ express makes that variable unknown (the kernel fails only if the result depends
 Trusted: this translator (the meaning it gives to the Python subset: unbounded ints as Z, floats as reals with
 nan as None, `/` on ints exact), the kernel table below (which source function corresponds to which model
 function, and the atom patterns)."""
-import ast, os, re, json, subprocess, time, textwrap
+import ast, json, os, re, subprocess, time, textwrap
 
 # --------------------------------------------------------------------------- types
 Z, F, OF, B, OZ = "Z", "F", "OF", "B", "OZ"
@@ -91,15 +91,171 @@ def parse_pattern(src):
     return ast.parse(src.replace("$", "H_"), mode="eval").body
 
 
+# --------------------------------------------------------------------------- hygiene of the source around a kernel (fail-closed)
+RESERVED_BUILTINS = {"float", "int", "bool", "len", "abs", "min", "max", "slice", "dict", "list", "tuple", "hasattr", "getattr", "setattr", "isinstance",
+                     "range", "reversed", "enumerate", "zip", "sum", "ValueError", "TypeError", "RuntimeError", "print", "super", "str", "type"}
+MODULE_ALIASES = {"torch", "np", "cplx", "F", "nn", "math"}
+DECORATOR_OK = re.compile(r"^(property|staticmethod|classmethod|abc\.abstractmethod|abstractmethod|auto_unsqueeze_args\((\d+(, \d+)*)?\))$")
+
+
+PURE_FUNCS = {"isinstance", "len", "hasattr", "getattr", "callable", "type", "float", "int", "bool", "abs", "min", "max"}
+PURE_METHODS = {"dim", "size", "numel", "keys", "items", "values", "get", "any", "all", "item", "startswith", "endswith", "lower", "upper"}
+
+
+def effect_free(node):
+    """an expression that cannot change anything: no walrus / yield / await, and no call except a few pure builtins and accessors"""
+    for n in ast.walk(node):
+        if isinstance(n, (ast.NamedExpr, ast.Yield, ast.YieldFrom, ast.Await, ast.Lambda)):
+            return False
+        if isinstance(n, ast.Call):
+            if isinstance(n.func, ast.Name) and n.func.id in PURE_FUNCS:
+                continue
+            if isinstance(n.func, ast.Attribute) and n.func.attr in PURE_METHODS:
+                continue
+            return False
+    return True
+
+
+def scope_binders(body):
+    """name -> number of binding occurrences in ONE scope (statements of the body, through if / for / while / with / try, not into nested defs or classes)"""
+    out = {}
+    def add(n):
+        out[n] = out.get(n, 0) + 1
+    def targets(t):
+        for n in ast.walk(t):
+            if isinstance(n, ast.Name) and isinstance(n.ctx, (ast.Store, ast.Del)):
+                add(n.id)
+    def walk(stmts):
+        for st in stmts:
+            if isinstance(st, (ast.FunctionDef, ast.AsyncFunctionDef, ast.ClassDef)):
+                add(st.name)
+                continue
+            if isinstance(st, (ast.Import, ast.ImportFrom)):
+                for a in st.names:
+                    add((a.asname or a.name).split(".")[0])
+                continue
+            if isinstance(st, ast.Assign):
+                for t in st.targets:
+                    targets(t)
+            elif isinstance(st, (ast.AugAssign, ast.AnnAssign)):
+                targets(st.target)
+            elif isinstance(st, (ast.For, ast.AsyncFor)):
+                targets(st.target)
+            elif isinstance(st, (ast.With, ast.AsyncWith)):
+                for i in st.items:
+                    if i.optional_vars is not None:
+                        targets(i.optional_vars)
+            elif isinstance(st, ast.Delete):
+                for t in st.targets:
+                    targets(t)
+            for n in ast.walk(st) if not isinstance(st, (ast.If, ast.For, ast.While, ast.With, ast.Try)) else []:
+                if isinstance(n, ast.NamedExpr):
+                    targets(n.target)
+            for fld in ("body", "orelse", "finalbody"):
+                sub = getattr(st, fld, None)
+                if isinstance(sub, list) and sub and isinstance(sub[0], ast.stmt):
+                    walk(sub)
+            for h in getattr(st, "handlers", []) or []:
+                if h.name:
+                    add(h.name)
+                walk(h.body)
+    walk(body)
+    return out
+
+
+def check_module_hygiene(tree, qual, helper_names, used_aliases=()):
+    """Python resolves names at run time: the translator may only read a definition that is the ONLY binding of its name in its scope, and the
+    builtins / module aliases it interprets must not be rebound anywhere in the file."""
+    mod = scope_binders(tree.body)
+    for n in ast.walk(tree):
+        if isinstance(n, (ast.Global, ast.Nonlocal)):
+            raise Untranslatable("a global / nonlocal declaration in the module (%s)" % ", ".join(n.names))
+    every = {}
+    for n in ast.walk(tree):
+        if isinstance(n, ast.Name) and isinstance(n.ctx, (ast.Store, ast.Del)):
+            every[n.id] = every.get(n.id, 0) + 1
+        elif isinstance(n, (ast.FunctionDef, ast.AsyncFunctionDef, ast.ClassDef)):
+            every[n.name] = every.get(n.name, 0) + 1
+        elif isinstance(n, ast.arg):
+            every[n.arg] = every.get(n.arg, 0) + 1
+        elif isinstance(n, (ast.Import, ast.ImportFrom)):
+            for a in n.names:
+                nm = (a.asname or a.name).split(".")[0]
+                every[nm] = every.get(nm, 0) + 1
+        elif isinstance(n, ast.ExceptHandler) and n.name:
+            every[n.name] = every.get(n.name, 0) + 1
+    for b in RESERVED_BUILTINS:
+        if every.get(b):
+            raise Untranslatable("the builtin %s is rebound in the module" % b)
+    imported = {}
+    for st in tree.body:
+        if isinstance(st, (ast.Import, ast.ImportFrom)):
+            for a in st.names:
+                nm = (a.asname or a.name).split(".")[0]
+                imported[nm] = imported.get(nm, 0) + 1
+    for m in used_aliases:
+        if every.get(m, 0) != imported.get(m, 0) or imported.get(m, 0) > 1:
+            raise Untranslatable("the module alias %s is bound other than by one top-level import" % m)
+    parts = qual.split(".")
+    if mod.get(parts[0], 0) != 1:
+        raise Untranslatable("%s has %d bindings at module level" % (parts[0], mod.get(parts[0], 0)))
+    body = tree.body
+    for i, pname in enumerate(parts[:-1]):
+        cls = [n for n in body if isinstance(n, ast.ClassDef) and n.name == pname]
+        if len(cls) != 1:
+            raise Untranslatable("class %s is not defined exactly once at the top of its scope" % pname)
+        body = cls[0].body
+        inner = scope_binders(body)
+        nxt = parts[i + 1]
+        if inner.get(nxt, 0) != 1:
+            raise Untranslatable("%s has %d bindings in class %s" % (nxt, inner.get(nxt, 0), pname))
+    scope = scope_binders(body) if len(parts) > 1 else mod
+    for h in helper_names:
+        if scope.get(h, 0) > 1:
+            raise Untranslatable("helper %s has %d bindings in its scope" % (h, scope.get(h, 0)))
+        if len(parts) > 1 and h in mod and False:
+            pass
+    if len(parts) == 1:
+        for h in helper_names:
+            if every.get(h, 0) != 1:
+                raise Untranslatable("helper %s is bound %d times in the file" % (h, every.get(h, 0)))
+
+
+def check_function_hygiene(fn, what):
+    for d in fn.decorator_list:
+        if not DECORATOR_OK.match(ast.unparse(d)):
+            raise Untranslatable("%s carries the decorator %s" % (what, ast.unparse(d)[:60]))
+    if fn.args.posonlyargs:
+        raise Untranslatable("%s has positional-only parameters" % what)
+    for n in ast.walk(fn):
+        if isinstance(n, (ast.Yield, ast.YieldFrom, ast.Await, ast.NamedExpr, ast.Global, ast.Nonlocal, ast.AsyncFunctionDef)):
+            raise Untranslatable("%s contains %s" % (what, type(n).__name__))
+        if isinstance(n, (ast.FunctionDef, ast.ClassDef)) and n is not fn and n.name in RESERVED_BUILTINS | MODULE_ALIASES:
+            raise Untranslatable("%s rebinds %s" % (what, n.name))
+
+
 # --------------------------------------------------------------------------- the translator
 class Tr:
     def __init__(self, spec, funcs):
         self.spec = spec
         self.funcs = funcs                       # name -> ast.FunctionDef of sibling kernels (for inlining self._x())
         self.atoms = [(parse_pattern(p), coq, ty) for p, coq, ty in spec.get("atoms", [])]
+        self.cur_kind = spec.get("kind", "function")
         self.n = 0
         self.depth = 0
         self.seen_target = False
+
+    def atom_fresh(self, pat, env):
+        """an atom names its subject literally: a kernel input mentioned in the pattern must still hold the value it had on entry"""
+        base = getattr(self, "base_env", {})
+        for n in ast.walk(pat):
+            if isinstance(n, ast.Name) and not n.id.startswith("H_") and n.id in base and env.get(n.id) != base[n.id]:
+                raise Untranslatable("an atom mentions %s, which was rebound before this point" % n.id)
+
+    def hole_ok(self, k, se):
+        must = self.spec.get("hole_must", {}).get(k)
+        if must is not None and se != must:
+            raise Untranslatable("the argument in hole $%s is %s, the kernel table requires %s" % (k, se[:40], must))
 
     def fresh(self, base):
         self.n += 1
@@ -159,9 +315,11 @@ class Tr:
         for pat, coq, ty in self.atoms:
             b = {}
             if _match(pat, node, b):
+                self.atom_fresh(pat, env)
                 out = coq
                 for k, sub in sorted(b.items(), key=lambda kv: -len(kv[0])):
                     se, st = self.expr(sub, env)
+                    self.hole_ok(k, se)
                     want = Z
                     out = out.replace("$" + k, self.coerce(se, st, want))
                 return out, ty
@@ -365,6 +523,8 @@ class Tr:
             return k_true(env)
         if c == "false":
             return k_false(env)
+        if c is None and not effect_free(test):
+            raise cerr                        # a test outside the subset may do anything (in-place calls, walrus ...)
         a, ta = k_true(env)
         b, tb = k_false(env)
         a, b, t = self.unify(a, ta, b, tb)
@@ -372,6 +532,10 @@ class Tr:
             return a, t                       # the value does not depend on the test
         if c is None:
             raise cerr
+        if (a == BOTTOM[0] or b == BOTTOM[0]) and self.cur_kind == "function":
+            # `if <test>: raise`: the kernel speaks about the non-raising inputs only, and only for tests the kernel table names
+            if ast.unparse(test) not in self.spec.get("raise_tests", []):
+                raise Untranslatable("a raising path under a test the kernel table does not list: %s" % ast.unparse(test)[:80])
         if a == BOTTOM[0]:
             return b, t
         if b == BOTTOM[0]:
@@ -465,6 +629,7 @@ class Tr:
             if self.depth > 6:
                 raise Untranslatable("inlining too deep")
             callee = self.funcs[f.attr]
+            check_function_hygiene(callee, "helper " + f.attr)
             if callee.args.vararg or callee.args.kwarg:
                 raise Untranslatable("helper %s with *args / **kwargs" % f.attr)
             params = [a.arg for a in callee.args.args if a.arg != "self"]
@@ -577,7 +742,17 @@ class Tr:
                 return "true", B
             return BOTTOM
         if isinstance(s, ast.With):
-            return self.block(list(s.body) + rest, env, kind, target)
+            env_w = dict(env)
+            for it in s.items:
+                ctx = ast.unparse(it.context_expr)
+                if not (ctx.startswith(("np.errstate(", "torch.no_grad(", "open(")) and isinstance(it.context_expr, ast.Call)
+                        and all(effect_free(a) for a in list(it.context_expr.args) + [k.value for k in it.context_expr.keywords])):
+                    raise Untranslatable("with %s" % ctx[:60])
+                if it.optional_vars is not None:
+                    if not isinstance(it.optional_vars, ast.Name) or it.optional_vars.id in env or it.optional_vars.id in getattr(self, "base_env", {}):
+                        raise Untranslatable("with ... as %s rebinds a name of the kernel" % ast.unparse(it.optional_vars))
+                    env_w[it.optional_vars.id] = Poison("bound by a with statement")
+            return self.block(list(s.body) + rest, env_w, kind, target)
         if isinstance(s, (ast.Assign, ast.AugAssign, ast.AnnAssign)):
             if isinstance(s, ast.Assign):
                 if len(s.targets) != 1:
@@ -629,6 +804,10 @@ class Tr:
                     raise
                 # the test (or a branch) is outside the subset: every name the statement assigns becomes unknown
                 if not self._test_ok(s.test, env):
+                    if any(isinstance(n, (ast.Continue, ast.Break)) for n in ast.walk(s)):
+                        raise Untranslatable("continue / break under a condition outside the supported subset (%s)" % ex)
+                    if not effect_free(s.test):
+                        raise Untranslatable("a condition with side effects outside the supported subset (%s)" % ex)
                     if kind == "raises" and any(isinstance(n, ast.Raise) for n in ast.walk(s)):
                         raise Untranslatable("a raise under a condition outside the supported subset (%s)" % ex)
                     env2 = dict(env)
@@ -663,6 +842,8 @@ class Tr:
             return K(env2)
         if kind == "raises" and any(isinstance(n, (ast.Raise, ast.Assert)) for n in ast.walk(s)):
             raise Untranslatable("a raise inside a %s statement" % type(s).__name__)
+        if isinstance(s, (ast.Continue, ast.Break)):
+            raise Untranslatable("%s on a path of the kernel" % type(s).__name__.lower())
         if kind in ("local", "raises"):
             if isinstance(s, (ast.Expr, ast.Assert, ast.Import, ast.ImportFrom, ast.Delete, ast.Global, ast.Nonlocal)):
                 return K(env)
@@ -713,9 +894,11 @@ class VecTr(Tr):
         for pat, coq, ty in self.atoms:
             b = {}
             if _match(pat, node, b):
+                self.atom_fresh(pat, env)
                 out = coq
                 for k, sub in sorted(b.items(), key=lambda kv: -len(kv[0])):
                     se, st = self.expr(sub, env)
+                    self.hole_ok(k, se)
                     want = self.spec.get("hole_types", {}).get(k, "BV")
                     out = out.replace("$" + k, self.coerce(se, st, want))
                 return out, ty
@@ -814,14 +997,63 @@ class VecTr(Tr):
                 raise Untranslatable("in-place subtraction of a %s from a gradient vector" % t)
             new = "(match %s with [] => [] | g0_ :: rest_ => vsub ROps g0_ %s :: rest_ end)" % (env[name][0], e)
             return self.bind(env, name, new, "LV", lambda e2: self.block(stmts[1:], e2, kind, target))
+        if stmts and isinstance(stmts[0], ast.Assign) and len(stmts[0].targets) == 1 and isinstance(stmts[0].targets[0], ast.Name):
+            fr = set(env.get("#fresh", ()))
+            val = stmts[0].value
+            if isinstance(val, ast.Name):
+                fr.discard(val.id); fr.discard(stmts[0].targets[0].id)      # two names for one tensor: neither is private any more
+            elif self.is_fresh(val, env):
+                fr.add(stmts[0].targets[0].id)
+            else:
+                fr.discard(stmts[0].targets[0].id)
+                for n in ast.walk(val):                                      # a view / unknown call may keep hold of its operands
+                    if isinstance(n, ast.Name):
+                        fr.discard(n.id)
+            env = dict(env); env["#fresh"] = frozenset(fr)
+        if stmts and isinstance(stmts[0], ast.AugAssign) and isinstance(stmts[0].target, ast.Name) \
+                and isinstance(env.get(stmts[0].target.id), tuple) and env[stmts[0].target.id][1] in ("V", "BV", "M", "Mt", "C", "LV", "LBV", "MV"):
+            raise Untranslatable("augmented assignment to the tensor %s (in place: every alias changes)" % stmts[0].target.id)
         return Tr.block(self, stmts, env, kind, target)
 
     MAPS = {"exp": "exp", "sqrt": "sqrt", "cos": "cos", "sin": "sin", "sigmoid": "(sigmoid ROps)", "sigmoid_": "(sigmoid ROps)",
             "exp_": "exp", "sqrt_": "sqrt", "neg": "Ropp", "log": "ln"}
 
+    FRESH_CALLS = {"torch.matmul", "torch.mv", "torch.dot", "torch.mul", "torch.zeros", "torch.zeros_like", "torch.ones", "F.linear", "F.softplus",
+                   "torch.nn.functional.linear", "torch.nn.functional.softplus", "torch.sigmoid", "torch.sum", "torch.cat", "torch.atan2", "torch.exp",
+                   "torch.einsum", "cplx.scalar_mult", "cplx.elementwise_mult", "cplx.make_complex", "cplx.absolute_value", "cplx.conjugate",
+                   "make_complex", "scalar_mult", "elementwise_mult", "absolute_value", "conj", "inverse", "scalar_divide", "elementwise_division"}
+    VIEW_METHODS = {"to", "view", "t", "unsqueeze", "squeeze", "reshape", "contiguous", "detach", "expand", "permute", "transpose", "flatten",
+                    "unsqueeze_", "squeeze_", "data", "T", "real", "imag", "narrow", "select", "__getitem__"}
+
+    def is_fresh(self, node, env=None):
+        if isinstance(node, ast.Name):
+            return env is not None and node.id in env.get("#fresh", ())
+        return self._is_fresh(node, env)
+
+    def _is_fresh(self, node, env=None):
+        """a tensor nobody else can see: the result of an arithmetic operator or of a constructor / out-of-place torch function (with
+        or without out=: the out buffers of this code base are scratch buffers), possibly followed by non-view methods"""
+        if isinstance(node, (ast.BinOp, ast.UnaryOp)):
+            return True
+        if isinstance(node, ast.Call):
+            if ast.unparse(node.func) in self.FRESH_CALLS or ast.unparse(node.func) in self.spec.get("fresh_calls", []):
+                return True
+            if ast.unparse(node.func) in ("real", "imag", "cplx.real", "cplx.imag") and len(node.args) == 1:
+                return self.is_fresh(node.args[0], env)            # a view of a private tensor is private
+            if isinstance(node.func, ast.Attribute):
+                return self.is_fresh(node.func.value, env)          # a method (view or not) of a private tensor
+        return False
+
+    def inplace_guard(self, node, env):
+        f = getattr(node, "func", None)
+        if isinstance(node, ast.Call) and isinstance(f, ast.Attribute) and f.attr.endswith("_") and not f.attr.startswith("__") \
+                and f.attr not in ("unsqueeze_", "squeeze_") and not self.is_fresh(f.value, env) and not self.spec.get("inplace_ok"):
+            raise Untranslatable("in-place %s on a tensor that may be shared (%s)" % (f.attr, ast.unparse(f.value)[:50]))
+
     def v_Call(self, node, env):
         f = node.func
         fname = ast.unparse(f)
+        self.inplace_guard(node, env)
         kw = {k.arg: k.value for k in node.keywords}
         args = node.args
         if fname in ("torch.matmul", "torch.mv", "torch.dot") and len(args) == 2 and set(kw) <= {"out"}:
@@ -903,7 +1135,11 @@ class VecTr(Tr):
                 return "(IZR 0)", F
         if isinstance(f, ast.Attribute):
             meth = f.attr
-            if meth == "to":                               # device / dtype move
+            if meth == "to":                               # device move / cast to the dtype of another float tensor / to double
+                ok = len(args) <= 1 and all(isinstance(a, (ast.Name, ast.Attribute)) and not ast.unparse(a).startswith("torch.") for a in args) \
+                    and set(kw) <= {"device", "dtype", "non_blocking"} and ("dtype" not in kw or ast.unparse(kw["dtype"]) in ("torch.double", "torch.float64"))
+                if not ok:
+                    raise Untranslatable("cast %s" % ast.unparse(node)[-70:])
                 return self.expr(f.value, env)
             if meth == "t" and not args and not kw:
                 x, tx = self.expr(f.value, env)
@@ -976,6 +1212,7 @@ class CplxTr(VecTr):
     is read as a write of A*B -/+ E to that component of `out`; the kernel is the out=None path (a fresh zero buffer)."""
 
     def expr(self, node, env):
+        self.inplace_guard(node, env)
         if isinstance(node, ast.Call) and isinstance(node.func, ast.Name):
             fn, args, kws = node.func.id, node.args, node.keywords
             if fn in ("real", "imag") and len(args) == 1 and not kws:
@@ -1017,11 +1254,27 @@ class CplxTr(VecTr):
                 return self.cdivr(x, self.coerce(y, ty, F)), "C"
         return VecTr.expr(self, node, env)
 
+    PINS = {"real": "return x[0, ...]", "imag": "return x[1, ...]",
+            "make_complex": "if isinstance(x, np.ndarray):\n    x = x.copy()\n    return make_complex(torch.tensor(x.real), torch.tensor(x.imag)).contiguous()\n"
+                            "if y is None:\n    y = torch.zeros_like(x)\nreturn torch.cat((x.unsqueeze(0), y.unsqueeze(0)), dim=0)"}
+
+    def check_pins(self):
+        for name, want in self.PINS.items():
+            fn = self.funcs.get(name)
+            if fn is None:
+                raise Untranslatable("cplx.%s not found" % name)
+            check_function_hygiene(fn, name)
+            body = [st for st in fn.body if not (isinstance(st, ast.Expr) and isinstance(st.value, ast.Constant) and isinstance(st.value.value, str))]
+            got = "\n".join(ast.unparse(st) for st in body)
+            if got != want:
+                raise Untranslatable("cplx.%s is not the pinned definition the entrywise reading assumes" % name)
+
     def cdivr(self, x, y):
         n = self.fresh("c")
         return "(let %s := %s in (Rdiv (fst %s) %s, Rdiv (snd %s) %s))" % (n, x, n, y, n, y)
 
     def inline(self, callee, node, env):
+        check_function_hygiene(callee, "helper " + callee.name)
         if self.depth > 6:
             raise Untranslatable("inlining too deep")
         if callee.args.vararg or callee.args.kwarg:
@@ -1063,6 +1316,8 @@ class CplxTr(VecTr):
                     if isinstance(o, ast.Call) and isinstance(o.func, ast.Name) and o.func.id in ("real", "imag") and len(o.args) == 1 \
                             and isinstance(o.args[0], ast.Name) and isinstance(env.get(o.args[0].id), tuple) and env[o.args[0].id][1] == "C":
                         buf = o.args[0].id
+                        if any(isinstance(n, ast.Name) and n.id == buf for part in (inner.args[0], inner.args[1], s.value.args[0]) for n in ast.walk(part)):
+                            raise Untranslatable("the out-buffer idiom reads the buffer it writes")
                         a, ta = self.expr(inner.args[0], env)
                         b, tb = self.expr(inner.args[1], env)
                         c, tc = self.expr(s.value.args[0], env)
@@ -1083,6 +1338,7 @@ class PairTr(VecTr):
     reading would be wrong."""
 
     def expr(self, node, env):
+        self.inplace_guard(node, env)
         if isinstance(node, ast.Call) and isinstance(node.func, ast.Attribute) and node.func.attr == "clone" and not node.args and not node.keywords:
             e, t = self.expr(node.func.value, env)
             return e, ("MV" if t == "MVview" else t)
@@ -1092,24 +1348,60 @@ class PairTr(VecTr):
                 return x, "MVview"
         if isinstance(node, ast.Call) and isinstance(node.func, ast.Name) and node.func.id in self.funcs and not node.keywords:
             callee = self.funcs[node.func.id]
+            check_function_hygiene(callee, "helper " + callee.name)
             params = [a.arg for a in callee.args.args]
             if callee.args.vararg or callee.args.kwarg or callee.args.defaults or len(params) != len(node.args) or self.depth > 4:
                 raise Untranslatable("call form of helper %s" % callee.name)
-            written = {t.value.id for st in ast.walk(callee) if isinstance(st, (ast.Assign, ast.AugAssign))
+            written = {t.value.id for st in ast.walk(callee) if isinstance(st, (ast.Assign, ast.AugAssign, ast.AnnAssign))
                        for t in (st.targets if isinstance(st, ast.Assign) else [st.target])
                        if isinstance(t, ast.Subscript) and isinstance(t.value, ast.Name)}
+            if any(isinstance(st, ast.Assign) and isinstance(st.value, ast.Name) and st.value.id in params for st in ast.walk(callee)):
+                written = set(params)              # a parameter aliased inside the helper: every tensor argument must be fresh
             cenv = {"#n": env.get("#n", 0) + 50 * (self.depth + 1)}
             for pn, a in zip(params, node.args):
                 fresh = isinstance(a, ast.Call) and isinstance(a.func, ast.Attribute) and a.func.attr == "clone"
                 if pn in written and not fresh:
                     raise Untranslatable("helper %s writes into its argument %s, which is not a fresh copy" % (callee.name, pn))
                 cenv[pn] = self.expr(a, env)
+                if cenv[pn][1] == "MVview":
+                    raise Untranslatable("a region view passed to a helper")
+                cenv = self.set_cls(cenv, pn, self.new_cls() if fresh else self.storage_of(a, env))
             self.depth += 1
             try:
                 return self.block(list(callee.body), cenv, "function")
             finally:
                 self.depth -= 1
         return VecTr.expr(self, node, env)
+
+    def bind(self, env, var, e, t, rest_k):
+        if t == "MVview":
+            raise Untranslatable("a region view kept in a variable without .clone()")
+        return VecTr.bind(self, env, var, e, t, rest_k)
+
+    # storage classes: names that may denote the SAME tensor object share a class; a write through one name is only
+    # readable as a rebinding of that name when nobody else shares its class
+    def cls_of(self, env, name):
+        return env.get("#cls", {}).get(name)
+
+    def set_cls(self, env, name, c):
+        env2 = dict(env); m = dict(env.get("#cls", {})); m[name] = c; env2["#cls"] = m
+        return env2
+
+    def new_cls(self):
+        self.n += 1
+        return "c%d" % self.n
+
+    def storage_of(self, node, env):
+        """class of the object an expression evaluates to, or a fresh class when it is certainly a new tensor"""
+        if isinstance(node, ast.Name):
+            return self.cls_of(env, node.id) or ("in:" + node.id)
+        if isinstance(node, ast.Call) and isinstance(node.func, ast.Attribute) and node.func.attr in ("to", "detach", "contiguous", "view", "reshape", "squeeze", "unsqueeze", "t"):
+            return self.storage_of(node.func.value, env)
+        if isinstance(node, ast.Attribute) and node.attr in ("data", "T"):
+            return self.storage_of(node.value, env)
+        if isinstance(node, ast.Subscript):
+            return self.storage_of(node.value, env)
+        return self.new_cls()
 
     def _region(self, sub, env):
         sl = sub.slice
@@ -1138,12 +1430,20 @@ class PairTr(VecTr):
                     raise Untranslatable("store of a %s through a region" % ty)
                 if isinstance(s.value, ast.Subscript) and self._region(s.value, env) != reg:
                     raise Untranslatable("store through one region from another")
+                mine = self.cls_of(env, tgt.value.id) or ("in:" + tgt.value.id)
+                names = set(env.get("#cls", {})) | {k for k in env if not k.startswith("#")}
+                for other in names:
+                    if other != tgt.value.id and (self.cls_of(env, other) or ("in:" + other)) == mine:
+                        raise Untranslatable("store into %s, which shares its tensor with %s" % (tgt.value.id, other))
+                if mine.startswith("in:") and self.depth == 0 and self.spec.get("func", "").split(".")[-1] != "swap":
+                    raise Untranslatable("store into the caller's tensor %s" % tgt.value.id)
                 return self.bind(env, tgt.value.id, "(bmerge %s %s %s)" % (reg, y, old[0]), "BV", K)
             if isinstance(tgt, ast.Name):
                 e, t = self.expr(s.value, env)
                 if t == "MVview":
                     raise Untranslatable("a region view kept in a variable without .clone()")
-                return self.bind(env, tgt.id, e, t, K)
+                env_c = self.set_cls(env, tgt.id, self.storage_of(s.value, env)) if t in ("BV", "MV", "V", "C") else env
+                return self.bind(env_c, tgt.id, e, t, K)
             if isinstance(tgt, ast.Tuple) and len(tgt.elts) == 2 and all(isinstance(x, ast.Name) for x in tgt.elts) and not isinstance(s.value, ast.Tuple):
                 e, t = self.expr(s.value, env)
                 if isinstance(t, tuple) and len(t) == 2:
@@ -1194,8 +1494,16 @@ def extract_save_dataflow(fn):
         raise Untranslatable("test %s" % ast.unparse(node))
 
     def is_raise(body):
-        return len(body) == 1 and isinstance(body[0], ast.Raise) and isinstance(body[0].exc, ast.Call) \
-            and ast.unparse(body[0].exc.func) == "ValueError"
+        if not (len(body) == 1 and isinstance(body[0], ast.Raise) and isinstance(body[0].exc, ast.Call) and body[0].cause is None
+                and ast.unparse(body[0].exc.func) == "ValueError" and not body[0].exc.keywords):
+            return False
+        for a in body[0].exc.args:                     # the message: a literal or an f-string over plain names
+            if isinstance(a, ast.Constant):
+                continue
+            if isinstance(a, ast.JoinedStr) and all(isinstance(v, ast.Constant) or (isinstance(v, ast.FormattedValue) and isinstance(v.value, ast.Name)) for v in a.values):
+                continue
+            return False
+        return True
 
     def bind(env, name, e, K):
         cnt[0] += 1
@@ -1230,6 +1538,15 @@ def extract_save_dataflow(fn):
             return "(if %s then None else\n  %s)" % (test(st.test, env), K(env))
         if isinstance(st, ast.For) and not st.orelse and isinstance(st.target, ast.Name) and ast.unparse(st.iter) == "self.networks" \
                 and len(st.body) == 1 and isinstance(st.body[0], ast.If) and not st.body[0].orelse and is_raise(st.body[0].body):
+            def uses_outside_comprehensions(node, name):
+                if isinstance(node, (ast.DictComp, ast.ListComp, ast.SetComp, ast.GeneratorExp)) and any(
+                        isinstance(t, ast.Name) and t.id == name for g in node.generators for t in ast.walk(g.target)):
+                    return False
+                if isinstance(node, ast.Name) and node.id == name:
+                    return True
+                return any(uses_outside_comprehensions(c, name) for c in ast.iter_child_nodes(node))
+            if st.target.id in env or st.target.id in ("self", "location", "metadata", "data") or any(uses_outside_comprehensions(r, st.target.id) for r in rest):
+                raise Untranslatable("the loop variable %s is used outside its loop" % st.target.id)
             env2 = dict(env); env2[st.target.id] = ("(fst nk)", "key")
             return "(if existsb (fun nk => %s) (s_nets st) then None else\n  %s)" % (test(st.body[0].test, env2), K(env))
         if isinstance(st, ast.Assign) and len(st.targets) == 1:
@@ -1244,9 +1561,7 @@ def extract_save_dataflow(fn):
                 and isinstance(st.value.func.value, ast.Name):
             c = st.value
             arg = None
-            if len(c.args) == 1 and not c.keywords:
-                arg = c.args[0]
-            elif not c.args and len(c.keywords) == 1 and c.keywords[0].arg is None:
+            if not c.args and len(c.keywords) == 1 and c.keywords[0].arg is None:      # d.update(**m) only: d.update(m) differs for non-string keys
                 arg = c.keywords[0].value
             if arg is not None:
                 return bind(env, c.func.value.id, "(dict_update %s %s)" % (dct(c.func.value, env), dct(arg, env)), K)
@@ -1498,6 +1813,34 @@ def class_functions(tree, qual):
     return {n.name: n for n in body if isinstance(n, ast.FunctionDef)}
 
 
+_PINS = None
+
+
+def kernel_skeleton(fn, target):
+    """the function with the right-hand sides of the assignments to `target` blanked: what a `local` kernel does NOT translate
+    (iteration spaces, initial values of loop-carried variables, what the result is used for) is pinned as text instead"""
+    import copy
+    f2 = copy.deepcopy(fn)
+    f2.body = [st for st in f2.body if not (isinstance(st, ast.Expr) and isinstance(st.value, ast.Constant) and isinstance(st.value.value, str))]
+    aug = any(isinstance(n, ast.AugAssign) and isinstance(n.target, ast.Name) and n.target.id == target for n in ast.walk(f2))
+    for n in ast.walk(f2):
+        if not aug and isinstance(n, ast.Assign) and len(n.targets) == 1 and isinstance(n.targets[0], ast.Name) and n.targets[0].id == target:
+            n.value = ast.Constant("KERNEL")          # the update is an augmented assignment when there is one: initial values stay pinned
+        elif isinstance(n, ast.AugAssign) and isinstance(n.target, ast.Name) and n.target.id == target:
+            n.value = ast.Constant("KERNEL")
+    return ast.unparse(f2)
+
+
+def _param_pins():
+    global _PINS
+    if _PINS is None:
+        try:
+            _PINS = json.load(open(os.path.join(os.path.dirname(os.path.abspath(__file__)), "srctie_params.json")))
+        except (OSError, ValueError):
+            _PINS = {}
+    return _PINS
+
+
 def translate_kernel(repo, spec):
     """returns (coq definition text, result type) or raises Untranslatable"""
     path = os.path.join(repo, spec["file"])
@@ -1522,12 +1865,36 @@ def translate_kernel(repo, spec):
     fn = find_function(tree, spec["func"])
     if fn is None:
         raise Untranslatable("function %s not found in %s" % (spec["func"], spec["file"]))
+    # the definition the translator reads must be the one Python runs: one binding per name, no rebound builtins / module aliases,
+    # no decorators beyond the known ones, no generators / walrus / global state, and the pinned positional signature
+    helpers = ({n.name for n in tree.body if isinstance(n, ast.FunctionDef)} if "." not in spec["func"] or spec.get("cplx") or spec.get("pairwise_swap")
+               else set(class_functions(tree, spec["func"])))
+    used = {n.func.id for n in ast.walk(fn) if isinstance(n, ast.Call) and isinstance(n.func, ast.Name)} | \
+           {n.func.attr for n in ast.walk(fn) if isinstance(n, ast.Call) and isinstance(n.func, ast.Attribute) and isinstance(n.func.value, ast.Name) and n.func.value.id == "self"}
+    scan = [fn] + [n for n in ast.walk(tree) if isinstance(n, ast.FunctionDef) and n.name in (helpers & used)]
+    aliases = {n.value.id for f_ in scan for n in ast.walk(f_) if isinstance(n, ast.Attribute) and isinstance(n.value, ast.Name) and n.value.id in MODULE_ALIASES}
+    check_module_hygiene(tree, spec["func"], sorted(helpers & used), sorted(aliases))
+    check_function_hygiene(fn, spec["func"])
+    pins = _param_pins()
+    key = "%s::%s" % (spec["file"], spec["func"])
+    now = [a.arg for a in fn.args.args] + ["*" + a.arg for a in fn.args.kwonlyargs]
+    if key in pins and pins[key] != now:
+        raise Untranslatable("the signature of %s is %s, pinned %s" % (spec["func"], now, pins[key]))
+    if key not in pins and os.environ.get("SRCTIE_WRITE_PINS") != "1":
+        raise Untranslatable("no pinned signature for %s (run tools/pin_srctie_params.py)" % key)
+    if spec.get("pin_skeleton"):
+        sk = kernel_skeleton(fn, spec["target"])
+        skey = key + "#skeleton:" + spec["target"]
+        if pins.get(skey) != sk and os.environ.get("SRCTIE_WRITE_PINS") != "1":
+            raise Untranslatable("the code around the kernel statement (loops, initial values, use of the result) differs from the pinned skeleton of %s" % spec["func"])
     if spec.get("kind") == "gibbs-skeleton":
         return "Definition gen_%s : list gstep :=\n  %s." % (spec["name"], extract_gibbs_skeleton(class_functions(tree, spec["func"]), fn)), "list gstep"
     if spec.get("kind") == "save-dataflow":
         return "Definition gen_%s (st : state) (md0 : option (list (key * val))) : option fcontent :=\n  %s." % (spec["name"], extract_save_dataflow(fn)), "option fcontent"
     if spec.get("kind") == "fit-skeleton":
         return "Definition gen_%s : skel :=\n  %s." % (spec["name"], extract_fit_skeleton(fn)), "skel"
+    if spec.get("cplx"):
+        CplxTr(spec, {n.name: n for n in tree.body if isinstance(n, ast.FunctionDef)}).check_pins()
     if spec.get("pairwise_swap"):
         tr = PairTr(spec, {n.name: n for n in tree.body if isinstance(n, ast.FunctionDef)})
     elif spec.get("cplx"):
